@@ -14,7 +14,7 @@ def main():
     bad = 0
     def one(p):
         return p, run(os.path.join(d, p), props)
-    with cf.ThreadPoolExecutor(max_workers=4) as ex:
+    with cf.ThreadPoolExecutor(max_workers=8) as ex:
         for p, res in ex.map(one, patches):
             results[p] = res
             if 'error' in res:
